@@ -568,3 +568,11 @@ Definition plan_mask (s : rowsel) (bs : nat) : list (nat * nat * nat * nat * lis
   let s1 := if selects_any s then s else Sels [] in
   let m := mask_of (trim s1) in
   mask_chunks (S (length m)) m 0 bs.
+
+(* ------------------------------------------------------------------ M: FromIterator<RowSelection> *)
+(* concatenation: bitmaps are appended when every item is mask backed, otherwise the items are
+   flattened through their selectors and re-collected *)
+Definition is_mask (s : rowsel) : bool := match s with Mask _ => true | Sels _ => false end.
+Definition concat_sel (l : list rowsel) : rowsel :=
+  if forallb is_mask l then Mask (flat_map den l)
+  else Sels (from_iter (flat_map selectors_of l)).
